@@ -1719,6 +1719,11 @@ where
                     (Command::ShowPrimaryReads, value) => {
                         show_response(&mut self.write, "primary reads", &value).await?;
                     }
+
+                    // A command with an argument we cannot use, e.g. a number out of range.
+                    (Command::InvalidArgument, error) => {
+                        error_response(&mut self.write, &error).await?;
+                    }
                 };
 
                 Ok(true)
